@@ -124,3 +124,222 @@ def real_decompose(smiles_list):
     from synrbl.SynProcessor import RSMIDecomposer
 
     return [RSMIDecomposer.decompose(s) for s in smiles_list]
+
+
+# ------------------------------------------------------------------------------------------------ strings
+def corr_str(ctx, cases):
+    """Py/Str.lean vs CPython on (s, sub) pairs"""
+    import re
+
+    ops = [{"op": "str", "s": s, "sub": sub} for s, sub in cases]
+    model = ctx.driver(ops)
+    bad = 0
+    for (s, sub), m in zip(cases, model):
+        real = {
+            "split": s.split("."),
+            "join": ".".join(s.split(".")),
+            "has": sub in s,
+            "count": s.count(sub),
+            "remove": s.replace(sub, ""),
+            "ends": s.endswith(sub),
+            "arrow": s.split(">>"),
+            "dropmaps": re.sub(r":\d+", "", s),
+        }
+        ctx.case(("str", s, sub), nontrivial=(sub in s))
+        if m != real:
+            bad += 1
+            if bad <= 3:
+                ctx.corr_break("Py/Str", {"s": s, "sub": sub}, m, real)
+    ctx.traces += len(cases)
+
+
+def gen_strings(rng, n, alphabet=".[]HO:>1C", subs=(".[H]", ".[O]", ".OO", ">>", ".", ":1")):
+    out = []
+    for _ in range(n):
+        k = rng.randint(0, 12)
+        s = "".join(rng.choice(alphabet) for _ in range(k))
+        if rng.random() < 0.5:
+            # plant occurrences, possibly overlapping
+            sub = rng.choice(subs)
+            pos = rng.randint(0, len(s))
+            s = s[:pos] + sub * rng.randint(1, 3) + s[pos:]
+        out.append((s, rng.choice(subs)))
+    return out
+
+
+# ------------------------------------------------------------------------------------------------ rule databases
+_DB = {}
+
+
+def load_db(name):
+    """the shipped rule databases exactly as the code loads them"""
+    import os
+
+    from gen_tables import load_json_maybe_gz
+    from core import REPO
+
+    if name not in _DB:
+        rel = {
+            "rulesManager": "synrbl/SynRuleImputer/rules_manager.json.gz",
+            "automatedRules": "Data/Rules/automated_rules.json.gz",
+        }[name]
+        _DB[name] = load_json_maybe_gz(os.path.join(REPO, rel))
+    return _DB[name]
+
+
+def corr_tables(ctx):
+    """round trip of the translator: the driver echoes the generated tables, compare with what Python loads"""
+    t = ctx.driver([{"op": "tables"}])[0]
+    for name in ("rulesManager", "automatedRules"):
+        db = load_db(name)
+        want = [{"smiles": e["smiles"], "comp": dict_pairs(e["Composition"])} for e in db]
+        got = [{"smiles": e["smiles"], "comp": e["comp"]} for e in t.get(name, [])]
+        ctx.case("table:" + name)
+        if want != got:
+            ctx.corr_break("gen_tables:" + name, name, got[:3], want[:3])
+    from synrbl.SynProcessor import RSMIDecomposer
+
+    want = [[int(k), v] for k, v in RSMIDecomposer.atomic_symbols.items()]
+    ctx.case("table:atomicSymbols")
+    if want != t.get("atomicSymbols"):
+        ctx.corr_break("gen_tables:atomicSymbols", "atomicSymbols", t.get("atomicSymbols"), want)
+    return t
+
+
+def real_match(db, data):
+    import copy
+
+    from synrbl.SynRuleImputer.synthetic_rule_matcher import SyntheticRuleMatcher
+
+    m = SyntheticRuleMatcher(copy.deepcopy(db), dict(data), select="all", ranking="ion_priority")
+    return [[[st["smiles"], st["Ratio"]] for st in sol] for sol in m.match()]
+
+
+class _Timeout(Exception):
+    pass
+
+
+def with_alarm(seconds, fn, *a):
+    """run fn(*a) under a wall-clock budget (the real depth-first search is exponential on large vectors)"""
+    import signal
+
+    def h(*_):
+        raise _Timeout()
+
+    old = signal.signal(signal.SIGALRM, h)
+    signal.setitimer(signal.ITIMER_REAL, seconds)
+    try:
+        return fn(*a)
+    finally:
+        signal.setitimer(signal.ITIMER_REAL, 0)
+        signal.signal(signal.SIGALRM, old)
+
+
+def corr_match(ctx, vectors, dbname="rulesManager", budget=1.0):
+    db = load_db(dbname)
+    real = []
+    kept = []
+    for d in vectors:
+        try:
+            real.append(with_alarm(budget, real_match, db, d))
+            kept.append(d)
+        except RecursionError:
+            real.append("recursion")
+            kept.append(d)
+        except _Timeout:
+            ctx.count("match:%s:skipped-over-budget" % dbname)
+    vectors[:] = kept
+    ops = [{"op": "match", "db": dbname, "data": dict_pairs(d)} for d in vectors]
+    model = ctx.driver(ops)
+    bad = 0
+    for d, r, m in zip(vectors, real, model):
+        ctx.case(("match", dbname, json.dumps(dict_pairs(d))), nontrivial=bool(r))
+        ctx.count("match:%s:solutions=%s" % (dbname, min(len(r), 5) if isinstance(r, list) else r))
+        if m.get("solutions") != r:
+            bad += 1
+            if bad <= 3:
+                ctx.corr_break("Matcher(" + dbname + ")", d, m, r)
+    ctx.traces += len(vectors)
+    return real
+
+
+def real_constraint(entries, ban):
+    from synrbl.SynRuleImputer.synthetic_rule_constraint import RuleConstraint
+
+    out = []
+    for e in entries:
+        c, u = RuleConstraint([dict(e)], ban_atoms=list(ban)).fit()
+        rec = (c + u)[0]
+        out.append({"new_reaction": rec["new_reaction"], "certain": len(c) == 1})
+    return out
+
+
+def corr_constraint(ctx, entries, ban_source):
+    real = real_constraint(entries, ban_source)
+    ops = []
+    for e in entries:
+        o = {"op": "constraint", "reactants": e["reactants"], "products": e["products"]}
+        if "added_products" in e:
+            o["added"] = e["added_products"]
+        ops.append(o)
+    model = ctx.driver(ops)
+    bad = 0
+    for e, r, m in zip(entries, real, model):
+        ctx.case(("constraint", json.dumps(e, sort_keys=True)), nontrivial=r["new_reaction"] != e["reactants"] + ">>" + e["products"])
+        ctx.count("constraint:certain=%s" % r["certain"])
+        if m != r:
+            bad += 1
+            if bad <= 3:
+                ctx.corr_break("Constraint", e, m, r)
+    ctx.traces += len(entries)
+    return real
+
+
+def real_rule_based_rows(rows, n_jobs=1):
+    """the real RuleBasedMethod.run on rows {reaction, id, carbon_balance_check}; returns (rows after, stats)"""
+    import copy
+
+    from synrbl.rule_based import RuleBasedMethod
+
+    rows = copy.deepcopy(rows)
+    stats = {}
+    RuleBasedMethod("id", "reaction", "reaction", n_jobs=n_jobs).run(rows, stats=stats)
+    return rows, stats
+
+
+def corr_rbrows(ctx, rxns, labels):
+    """model rbRow (fed with the real decomposer's dictionaries) vs the real rule-based stage"""
+    from synrbl.SynProcessor import RSMIDecomposer
+
+    rows = [{"reaction": r, "id": str(i), "carbon_balance_check": l} for i, (r, l) in enumerate(zip(rxns, labels))]
+    after, stats = real_rule_based_rows(rows)
+    ops = []
+    for r, l in zip(rxns, labels):
+        rs, ps = r.split(">>")
+        ops.append(
+            {
+                "op": "rbRow",
+                "reaction": r,
+                "carbon": l,
+                "r": dict_pairs(RSMIDecomposer.decompose(rs)),
+                "p": dict_pairs(RSMIDecomposer.decompose(ps)),
+            }
+        )
+    model = ctx.driver(ops)
+    bad = 0
+    for r, a, m in zip(rxns, after, model):
+        ctx.case(("rbrow", r), nontrivial=a["reaction"] != r)
+        ctx.count("rbrow:%s" % ("edited" if a["reaction"] != r else "unchanged"))
+        if m.get("reaction") != a["reaction"]:
+            bad += 1
+            if bad <= 3:
+                ctx.corr_break("RuleBased.rbRow", r, m, a["reaction"])
+    mstats = {
+        "balanced_cnt": sum(1 for m in model if m.get("countedBalanced")),
+        "rb_applied": sum(1 for m in model if m.get("applied")),
+        "rb_solved": sum(1 for m in model if m.get("solved")),
+    }
+    if mstats != stats:
+        ctx.corr_break("RuleBased.stats", {"n": len(rxns)}, mstats, stats)
+    ctx.traces += len(rxns)
+    return after, stats, model
